@@ -86,6 +86,11 @@ pub struct Env {
     /// percentage (0..=100) of eligible dispatch loads that observe the stale
     /// initial pointer; 0 disables the fault
     pub stale_pct: u8,
+    /// what the simulated memory holds AROUND the caller's slices: 0 = zero
+    /// bytes, 1 = a cyclic copy of all of the episode's buffers (so that a
+    /// read past a slice sees plausible needle/haystack bytes)
+    #[serde(default)]
+    pub poison: u8,
 }
 
 #[derive(Serialize, Deserialize, Clone, Copy, Debug, PartialEq, Eq, Hash)]
@@ -269,7 +274,14 @@ pub enum Op {
         inert_at: Vec<Option<u32>>,
     },
     /// C13: measure the step clock across one complete operation
-    Cost { f: CostFn, hay: BufId, needle: BufId },
+    Cost {
+        f: CostFn,
+        hay: BufId,
+        needle: BufId,
+        /// builder configuration for the forward finder (None: `Finder::new`)
+        #[serde(default)]
+        cfg: Option<FinderCfg>,
+    },
 }
 
 #[derive(Serialize, Deserialize, Clone, Debug)]
